@@ -153,6 +153,22 @@ Definition mk_inline_items (l : list (bytes * value)) : kvs :=
 Definition mk_tbl_items (l : list (bytes * item)) : kvs :=
   map (fun kv => (key_new (fst kv), snd kv)) l.
 
+(* does a table print anything below itself (so that it is still mentioned when its own header is left
+   out)?  The printer (encode.rs visit_table) leaves out the `[header]` of a table marked implicit that has
+   no key/value line of its own; Table::new() is not implicit, Table::set_implicit(true) is what
+   toml's DocumentFormatter calls on every non-empty table. *)
+Fixpoint item_prints (it : item) : bool :=
+  match it with
+  | INone => false
+  | IValue _ => true
+  | ITable t => negb (t_implicit t) || tbl_prints t
+  | IAot ts _ => match ts with [] => false | _ => true end
+  end
+with tbl_prints (t : tbl) : bool :=
+  match t with
+  | Tbl items _ _ _ _ _ => existsb (fun kv => match kv with (_, i0) => item_prints i0 end) items
+  end.
+
 (* PS: the admissible leaves, PK: the admissible keys (e.g. "valid UTF-8"; `fun _ => True` for all) *)
 Section Built.
   Variable PS : scalar -> Prop.
@@ -165,20 +181,24 @@ Section Built.
   | BV_inline l d : decor_built d -> NoDup (map fst l) -> Forall PK (map fst l) -> Forall BuiltValue (map snd l) ->
       BuiltValue (VInline (mk_inline_items l) REmpty false false d None).
 
-  (* the entries of a constructed table: Table::new() + inserts *)
+  (* the entries of a constructed table: Table::new() + inserts, optionally set_implicit(true) (`im`);
+     a table marked implicit must still print something below itself, or it would disappear from the
+     printed document (an array element always gets its `[[header]]`) *)
   Inductive BuiltItem : item -> Prop :=
   | BI_value v : BuiltValue v -> BuiltItem (IValue v)
-  | BI_table l : BuiltEntries l ->
-      BuiltItem (ITable (Tbl (mk_tbl_items l) decor_default false false None None))
-  | BI_aot ls : Forall BuiltEntries ls ->
-      BuiltItem (IAot (map (fun l => Tbl (mk_tbl_items l) decor_default false false None None) ls) None)
+  | BI_table im l : BuiltEntries l ->
+      (im = true -> existsb (fun kv => item_prints (snd kv)) l = true) ->
+      BuiltItem (ITable (Tbl (mk_tbl_items l) decor_default im false None None))
+  | BI_aot ls : Forall (fun x => BuiltEntries (snd x)) ls ->
+      BuiltItem (IAot (map (fun x => Tbl (mk_tbl_items (snd x)) decor_default (fst x) false None None) ls) None)
   with BuiltEntries : list (bytes * item) -> Prop :=
   | BE l : NoDup (map fst l) -> Forall PK (map fst l) -> Forall BuiltItem (map snd l) -> BuiltEntries l.
 
-  (* a constructed table; `pos` is None, or Some 0 for the root of DocumentMut::new() *)
+  (* a constructed root table; `pos` is None, or Some 0 for the root of DocumentMut::new(); the root never
+     has a header, so its implicit flag does not matter *)
   Definition BuiltTbl (t : tbl) : Prop :=
-    exists l pos, BuiltEntries l /\ (pos = None \/ pos = Some 0%N) /\
-                  t = Tbl (mk_tbl_items l) decor_default false false pos None.
+    exists l im pos, BuiltEntries l /\ (pos = None \/ pos = Some 0%N) /\
+                     t = Tbl (mk_tbl_items l) decor_default im false pos None.
 End Built.
 
 (* ---- the abstract tree ----------------------------------------------------------------------- *)
